@@ -106,7 +106,8 @@ theorem dropCheckout_idleBound (s : State) (r : ReqId) (h : IdleBound s) : IdleB
   · rename_i c hc
     split
     · exact h
-    · have h1 := returnUnused_idleBound s c h
+    · have h0 : IdleBound (takeConn s r c) := idleBound_of_eq h rfl rfl
+      have h1 := returnUnused_idleBound (takeConn s r c) c h0
       simp only []
       split
       · exact idleBound_of_eq h1 (by simp) (by simp)
@@ -286,7 +287,7 @@ theorem dropCheckout_cfg (s : State) (r : ReqId) : (dropCheckout s r).cfg = s.cf
   · rfl
   · split
     · rfl
-    · simp only []; split <;> simp [returnUnused_cfg]
+    · simp only []; split <;> simp [returnUnused_cfg, takeConn]
 
 theorem registerConnected_cfg (s : State) (c : Checkout) (cid : ConnId) : (registerConnected s c cid).1.cfg = s.cfg := by
   unfold registerConnected
